@@ -71,7 +71,7 @@ def decToF64 (neg : Bool) (mant : Nat) (exp10 : Int) : Nat :=
 Number ::= [sign] ( 'inf' | 'infinity' | 'nan' | Digit* '.' Digit* [Exp] | Digit+ [Exp] )    (letters: any case)
 Exp    ::= ('e' | 'E') [sign] Digit+                with at least one digit before or after the '.'
 ```
-Nothing else: no whitespace, no `_`, no hexadecimal.  Texts are lists of code points (or of UTF-8 bytes: every
+Nothing else: no whitespace, no `_`, no hexadecimal.  The exponent is read with Rust's cap (`capDigitsVal`).  Texts are lists of code points (or of UTF-8 bytes: every
 accepted character is ASCII, so both views agree). -/
 
 def isDigit (c : Nat) : Bool := decide (48 ≤ c) && decide (c ≤ 57)
@@ -91,7 +91,19 @@ def wInf : List Nat := [105, 110, 102]
 def wInfinity : List Nat := [105, 110, 102, 105, 110, 105, 116, 121]
 def wNan : List Nat := [110, 97, 110]
 
-/-- the optional exponent part: `none` = malformed; an absent exponent is 0 -/
+/-- where `dec2flt` stops accumulating exponent digits (`0x10000`) -/
+def expCap : Nat := 65536
+
+/-- the exponent digits as `dec2flt::parse::parse_scientific` (and `decimal_seq::parse_decimal_seq`, the slow path)
+accumulate them: `if exponent < 0x10000 { exponent = 10 * exponent + digit }` for every digit, most significant first —
+the digits after the point at which the accumulated magnitude has reached 65 536 are read and IGNORED. For exponent
+digits whose value is below 65 536 this is their value (`Lemmas/FloatGrammar.lean` `capDigitsVal_eq`); a longer exponent
+stops at the first prefix at or above 65 536 (a value in 65 536 … 655 359): `655360` is read as 65 536. Observation N3
+of DESIGN.md: visible only when the mantissa has ≈ 65 000 digits or more (every shorter text is 0 or inf either way). -/
+def capDigitsVal (ds : List Nat) : Nat := ds.foldl (fun acc c => if acc < expCap then acc * 10 + (c - 48) else acc) 0
+
+/-- the optional exponent part: `none` = malformed; an absent exponent is 0. The magnitude is accumulated with Rust's
+cap (`capDigitsVal`), the sign is applied afterwards (`if negative { -exponent }`). -/
 def parseExp (s : List Nat) : Option Int :=
   match s with
   | [] => some 0
@@ -104,7 +116,7 @@ def parseExp (s : List Nat) : Option Int :=
         | ds => (false, ds)
       let (ed, tail) := spanDigits ds
       if ed.isEmpty || !tail.isEmpty then none
-      else some (if neg then -(digitsVal ed : Int) else (digitsVal ed : Int))
+      else some (if neg then -(capDigitsVal ed : Int) else (capDigitsVal ed : Int))
     else none
 
 /-- the unsigned part of a number text -/
